@@ -640,7 +640,7 @@ def _agg_verify(rep, suite, n, fast=False):
             g, mdl = pth.ctx.prove(z3.Or(sig.t != expected.t, z3.Not(distinct), degenerate), timeout_ms=120000)
             require(rep, g, "%s False => the signature is not that sum, or a precondition fails" % tag, pth.decisions, rp)
     core.explore(run, on_path=on_path, ctx_kwargs=dict(branch_timeout_ms=60000))
-    require(rep, seen[True] > 0 and seen[False] > 0, "%s: accepting and rejecting paths reachable" % tag, None, rp)
+    require(rep, (seen[True] > 0 or n_keys == 0) and seen[False] > 0, "%s: accepting and rejecting paths reachable" % tag, None, rp)
 
 
 for _s in SUITES:
@@ -708,7 +708,7 @@ def _c04_conditions(W, pk, sig):
     return conds
 
 
-def _c04_run(rep, name, call, n_keys, with_sig, tag, replay_kind="bls_total"):
+def _c04_run(rep, name, call, n_keys, with_sig, tag, replay_kind="bls_total", n_msgs=None):
     cs = cs_mod()
     rp = {"kind": replay_kind, "args": {"what": tag}}
     seen = {True: 0, False: 0}
@@ -717,7 +717,7 @@ def _c04_run(rep, name, call, n_keys, with_sig, tag, replay_kind="bls_total"):
         W = World()
         pks = [SymBytes.var("pk%d" % i, 0, 200) for i in range(n_keys)]
         sig = SymBytes.var("sig", 0, 200) if with_sig else None
-        msgs = [SymBytes.var("m%d" % i, 0, 300) for i in range(max(n_keys, 1))]
+        msgs = [SymBytes.var("m%d" % i, 0, 300) for i in range(max(n_keys, 1) if n_msgs is None else n_msgs)]
         with world.patched(cs, **W.bindings()):
             res = call(cs, pks, msgs, sig)
             isb = isinstance(res, (bool, SymBool))
@@ -737,6 +737,10 @@ def _c04_run(rep, name, call, n_keys, with_sig, tag, replay_kind="bls_total"):
         W, pks, sig, okb, isb = pth.value
         require(rep, isb, "%s returns a boolean" % tag, pth.decisions, rp)
         seen[okb] += 1
+        if okb and n_keys == 0:
+            g, mdl = pth.ctx.satisfiable()
+            if g != "unsat":
+                rep.fail("%s returns True for an EMPTY key list" % tag, rp, detail=str(pth.decisions))
         if okb:
             conds = []
             for pk in pks:
@@ -755,7 +759,7 @@ def _c04_run(rep, name, call, n_keys, with_sig, tag, replay_kind="bls_total"):
                 require(rep, g, "%s True => %s" % (tag, core._short(cnd, 60)), pth.decisions, rpm)
         monitor_pairings(rep, pth, W, tag, rp)
     core.explore(run, on_path=on_path, ctx_kwargs=dict(branch_timeout_ms=30000, max_decisions=300), max_paths=20000)
-    require(rep, seen[True] > 0 and seen[False] > 0, "%s: accepting and rejecting paths reachable" % tag, None, rp)
+    require(rep, (seen[True] > 0 or n_keys == 0) and seen[False] > 0, "%s: accepting and rejecting paths reachable" % tag, None, rp)
 
 
 @obligation("C04", "key_validate_total", bound="every byte string of length 0..200 as public key (content abstract, length symbolic)")
@@ -774,6 +778,7 @@ for _s in SUITES:
             rep.encoded(getattr(cs, s).Verify, cs.BaseG2Ciphersuite._CoreVerify)
             rep.stub("ideal model (symx.blsmodel)")
             _c04_run(rep, "v", lambda cs, pks, msgs, sig: getattr(cs, s).Verify(pks[0], msgs[0], sig), 1, True, "%s.Verify" % s)
+            _c04_run(rep, "av0", lambda cs, pks, msgs, sig: getattr(cs, s).AggregateVerify(pks, msgs, sig), 0, True, "%s.AggregateVerify(0 keys)" % s, n_msgs=0)
             _c04_run(rep, "av1", lambda cs, pks, msgs, sig: getattr(cs, s).AggregateVerify(pks, msgs, sig), 1, True, "%s.AggregateVerify(1 key)" % s)
             _c04_run(rep, "av2", lambda cs, pks, msgs, sig: getattr(cs, s).AggregateVerify(pks, msgs, sig), 2, True, "%s.AggregateVerify(2 keys)" % s)
             _c04_run(rep, "av3", lambda cs, pks, msgs, sig: getattr(cs, s).AggregateVerify(pks, msgs, sig), 3, True, "%s.AggregateVerify(3 keys)" % s)
@@ -781,15 +786,15 @@ for _s in SUITES:
                 _c04_run(rep, "av4", lambda cs, pks, msgs, sig: getattr(cs, s).AggregateVerify(pks, msgs, sig), 4, True, "%s.AggregateVerify(4 keys)" % s)
         return f
     obligation("C04", "verifiers_total_%s" % _s, timeout=1200,
-               bound="every byte string of length 0..200 for each key and the signature (lengths symbolic, contents abstract), 1..3 keys (quick) / 1..4 (thorough); every message")(_mk4(_s))
+               bound="every byte string of length 0..200 for each key and the signature (lengths symbolic, contents abstract), 0..3 keys (quick) / 0..4 (thorough); every message")(_mk4(_s))
 
 
-@obligation("C04", "pop_verifiers_total", timeout=1200, bound="PopVerify and FastAggregateVerify with 1..3 (quick) / 1..4 (thorough) arbitrary key strings of length 0..200, arbitrary signature string")
+@obligation("C04", "pop_verifiers_total", timeout=1200, bound="PopVerify and FastAggregateVerify with 0..3 (quick) / 0..4 (thorough) arbitrary key strings of length 0..200, arbitrary signature string")
 def c04_pop(rep, tier):
     cs = cs_mod()
     S = cs.G2ProofOfPossession
     rep.encoded(S.PopVerify, S.FastAggregateVerify, S._AggregatePKs, S._is_valid_pubkey)
     rep.stub("ideal model (symx.blsmodel)")
     _c04_run(rep, "pv", lambda cs, pks, msgs, sig: cs.G2ProofOfPossession.PopVerify(pks[0], sig), 1, True, "PopVerify")
-    for n in ((1, 2, 3) if tier == "quick" else (1, 2, 3, 4)):
+    for n in ((0, 1, 2, 3) if tier == "quick" else (0, 1, 2, 3, 4)):
         _c04_run(rep, "fav", lambda cs, pks, msgs, sig: cs.G2ProofOfPossession.FastAggregateVerify(pks, msgs[0], sig), n, True, "FastAggregateVerify(%d keys)" % n)
